@@ -1,0 +1,87 @@
+//go:build verif
+// +build verif
+
+package apd
+
+import (
+	"fmt"
+	"strings"
+)
+
+// This file is only compiled with the "verif" build tag. It exposes
+// read-only views of unexported state to the verification harness under
+// /verif. It adds no behaviour to the package.
+
+// VerifBigIntState reports the representation of z: whether the value is
+// stored in the inline array, whether the negative sentinel is set, and the
+// two inline words (meaningful only when inline is true).
+func VerifBigIntState(z *BigInt) (inline bool, negSentinelSet bool, w0, w1 uint64) {
+	inline = z.isInline()
+	negSentinelSet = z._inner == negSentinel
+	w0 = uint64(z._inline[0])
+	if len(z._inline) > 1 {
+		w1 = uint64(z._inline[1])
+	}
+	return
+}
+
+func verifDumpBigInt(sb *strings.Builder, name string, z *BigInt) {
+	inline, ns, w0, w1 := VerifBigIntState(z)
+	fmt.Fprintf(sb, "%s=%v/%v/%x/%x/%s\n", name, inline, ns, w0, w1, z.String())
+}
+
+func verifDumpDecimal(sb *strings.Builder, name string, d *Decimal) {
+	fmt.Fprintf(sb, "%s=%d/%v/%d/", name, d.Form, d.Negative, d.Exponent)
+	verifDumpBigInt(sb, "coeff", &d.Coeff)
+}
+
+// VerifSnapshotGlobals returns a canonical dump of every package-level value
+// that operations share: lookup tables, big constants, decimal constants, the
+// rounded constant tables and BaseContext.
+func VerifSnapshotGlobals() string {
+	var sb strings.Builder
+	for i := range pow10LookupTable {
+		verifDumpBigInt(&sb, fmt.Sprintf("pow10[%d]", i), &pow10LookupTable[i])
+	}
+	for i := range digitsLookupTable {
+		e := &digitsLookupTable[i]
+		fmt.Fprintf(&sb, "digits[%d]=%d\n", i, e.digits)
+		verifDumpBigInt(&sb, "border", &e.border)
+		verifDumpBigInt(&sb, "nborder", &e.nborder)
+	}
+	verifDumpBigInt(&sb, "bigOne", bigOne)
+	verifDumpBigInt(&sb, "bigTwo", bigTwo)
+	verifDumpBigInt(&sb, "bigFive", bigFive)
+	verifDumpBigInt(&sb, "bigTen", bigTen)
+	for _, c := range []struct {
+		n string
+		d *Decimal
+	}{
+		{"decimalZero", decimalZero}, {"decimalOneEighth", decimalOneEighth},
+		{"decimalHalf", decimalHalf}, {"decimalOne", decimalOne},
+		{"decimalTwo", decimalTwo}, {"decimalThree", decimalThree},
+		{"decimalEight", decimalEight}, {"decimalMaxInt64", decimalMaxInt64},
+		{"decimalMinInt64", decimalMinInt64}, {"decimalCbrtC1", decimalCbrtC1},
+		{"decimalCbrtC2", decimalCbrtC2}, {"decimalCbrtC3", decimalCbrtC3},
+		{"decimalNaN", decimalNaN}, {"decimalInfinity", decimalInfinity},
+	} {
+		verifDumpDecimal(&sb, c.n, c.d)
+	}
+	for _, c := range []struct {
+		n string
+		c *constWithPrecision
+	}{{"ln10", decimalLn10}, {"invln10", decimalInvLn10}} {
+		verifDumpDecimal(&sb, c.n+".unrounded", &c.c.unrounded)
+		for i := range c.c.vals {
+			verifDumpDecimal(&sb, fmt.Sprintf("%s.vals[%d]", c.n, i), &c.c.vals[i])
+		}
+	}
+	fmt.Fprintf(&sb, "BaseContext=%d/%d/%d/%d/%q\n", BaseContext.Precision,
+		BaseContext.MaxExponent, BaseContext.MinExponent, BaseContext.Traps, string(BaseContext.Rounding))
+	return sb.String()
+}
+
+// VerifDigitsTableRow returns the digits column of digitsLookupTable[i].
+func VerifDigitsTableRow(i int) int64 {
+	return digitsLookupTable[i].digits
+}
